@@ -1,6 +1,7 @@
 import WtfModel.Proofs.C13Main
 import WtfModel.Proofs.C13Context
 import WtfModel.Proofs.ScoreField
+import WtfModel.Proofs.Boosts
 
 /-!
   C13 — project context only re-ranks, in favour of commands that mention it.
@@ -293,5 +294,56 @@ example : makeTargetsOf {} (Bytes.ofString "all: build\nA=b:c\n.PHONY: all\n# c:
     [Bytes.ofString "all", Bytes.ofString "go build", Bytes.ofString "build"] := by decide +kernel
 
 end analyzer
+
+end Wtf.C13
+
+/-! ### The NLP layer is modelled: `monotone` without hypotheses about the NLP factors
+
+  `Boosts.nlpOut ri db nq` is the model of the NLP analysis and of `calculateIntentBoost` / `calculateBoostForCommand`
+  (Model/Boosts.lean; literals regenerated into `Gen/Boosts.lean` on every run, validated bit for bit by the `boosts`
+  correspondence domain, and the search driver runs with it).  Its factors are proved positive / at least 1
+  (`Proofs/Boosts.lean`), which discharges `hib` and `hcb`. -/
+namespace Wtf.C13
+open Wtf.Text Wtf.Index Wtf.Filters Wtf.Search ScoreOps ScoreLaws
+
+section engine_modelled
+variable {S : Type} [ScoreOps S] [ScoreLaws S]
+
+/-- the two factor hypotheses of `monotone` hold for every parameter set whose NLP layer is the modelled one -/
+theorem modelled_nlp_factors_nonneg (T : Tuning S) (db : Db) (hnlp : T.nlp = Boosts.nlpOut T.ri db) :
+    (∀ nq d, Nonneg ((T.nlp nq).intentBoost d)) ∧ (∀ nq d, Nonneg ((T.nlp nq).cascade d)) := by
+  constructor
+  · intro nq d; rw [hnlp]; exact (Boosts.nlpOut_factorsNonneg T.ri db nq d).1
+  · intro nq d; rw [hnlp]; exact (Boosts.nlpOut_factorsNonneg T.ri db nq d).2
+
+/-- **Boosting never lowers a score, with the modelled NLP layer**: only the BM25F parameters (discharged for the source by
+    `genParams_sane`) and the factors of the boost map (`≥ 1`: `boosts_ok_scores`) are assumed -/
+theorem monotone_modelled_nlp (T : Tuning S) (db : Db) (hnlp : T.nlp = Boosts.nlpOut T.ri db) (q : Bytes) (o : Opts S)
+    (hP : ParamsSane T.params) (B : List (Bytes × S)) (hB : ∀ p ∈ B, ge p.2 one)
+    {rB r0 : List (Nat × S)} (h1 : search T db q (withBoosts o B) = .ok rB) (h2 : search T db q (withBoosts o []) = .ok r0)
+    {d : Nat} {sB s0 : S} (hdB : scoreOf rB d = some sB) (hd0 : scoreOf r0 d = some s0) : ge sB s0 :=
+  monotone T db q o hP (modelled_nlp_factors_nonneg T db hnlp).1 (modelled_nlp_factors_nonneg T db hnlp).2 B hB h1 h2 hdB hd0
+
+/-- the clause as the property words it, with the modelled NLP layer -/
+theorem monotone_containing_modelled_nlp (T : Tuning S) (db : Db) (hnlp : T.nlp = Boosts.nlpOut T.ri db) (q : Bytes) (o : Opts S)
+    (hP : ParamsSane T.params) (B : List (Bytes × S)) (hB : ∀ p ∈ B, ge p.2 one)
+    {rB r0 : List (Nat × S)} (h1 : search T db q (withBoosts o B) = .ok rB) (h2 : search T db q (withBoosts o []) = .ok r0)
+    {d : Nat} {c : Cmd} (hc : db[d]? = some c) {w : Token} (hw : w ∈ B.map (·.1)) (hq : w ∈ queryTerms T db q o)
+    (hcw : containsTerm c w = true)
+    {sB s0 : S} (hdB : scoreOf rB d = some sB) (hd0 : scoreOf r0 d = some s0) : ge sB s0 :=
+  monotone_containing T db q o hP (modelled_nlp_factors_nonneg T db hnlp).1 (modelled_nlp_factors_nonneg T db hnlp).2 B hB h1 h2
+    hc hw hq hcw hdB hd0
+
+/-- the context detected in *any* directory never lowers the score of any returned command, with the modelled NLP layer -/
+theorem detected_context_never_lowers_modelled_nlp (T : Tuning S) (db : Db) (hnlp : T.nlp = Boosts.nlpOut T.ri db) (q : Bytes)
+    (o : Opts S) (hP : ParamsSane T.params)
+    (ri : RuneInfo) (listing : List Bytes) (pkg : Option (List Bytes)) (mkText : Bytes → Option Bytes)
+    {rB r0 : List (Nat × S)}
+    (h1 : search T db q (withBoosts o (engineBoosts (Wtf.Context.analyze ri listing pkg mkText))) = .ok rB)
+    (h2 : search T db q (withBoosts o []) = .ok r0)
+    {d : Nat} {sB s0 : S} (hdB : scoreOf rB d = some sB) (hd0 : scoreOf r0 d = some s0) : ge sB s0 :=
+  monotone_modelled_nlp T db hnlp q o hP _ (boosts_ok_scores _) h1 h2 hdB hd0
+
+end engine_modelled
 
 end Wtf.C13
